@@ -3,9 +3,9 @@ use crate::encoder::{encode, Encodable};
 use crate::errors::{Error, Result};
 use crate::jsontypes::{FacebookScopeMapping, FacebookSources, RawSourceMap};
 use crate::types::{DecodedMap, RewriteOptions, SourceMap};
-use crate::utils::greatest_lower_bound;
 use crate::vlq::parse_vlq_segment_into;
 use crate::Token;
+use std::convert::TryFrom;
 use std::io::{Read, Write};
 use std::ops::{Deref, DerefMut};
 
@@ -14,9 +14,9 @@ use std::ops::{Deref, DerefMut};
 /// which represents the function names/scopes.
 #[derive(Debug, Clone)]
 pub struct HermesScopeOffset {
-    line: u32,
-    column: u32,
-    name_index: u32,
+    line: i64,
+    column: i64,
+    name_index: i64,
 }
 
 #[derive(Debug, Clone)]
@@ -110,14 +110,18 @@ impl SourceMapHermes {
         // https://github.com/facebook/metro/blob/63b523eb20e7bdf62018aeaf195bb5a3a1a67f36/packages/metro-symbolicate/src/SourceMetadataMapConsumer.js#L204-L231
         // Mappings use 1-based index for lines, and 0-based index for cols, as seen here:
         // https://github.com/facebook/metro/blob/f2d80cebe66d3c64742f67259f41da26e83a0d8d/packages/metro/src/Server/symbolicate.js#L58-L60
-        let (_mapping_idx, mapping) = greatest_lower_bound(
-            &function_map.mappings,
-            &(u64::from(token.get_src_line()) + 1, token.get_src_col()),
-            |o| (u64::from(o.line), o.column),
-        )?;
+        // the last mapping at or before the position (Metro searches for the upper bound)
+        let key = (
+            i64::from(token.get_src_line()) + 1,
+            i64::from(token.get_src_col()),
+        );
+        let idx = function_map
+            .mappings
+            .partition_point(|o| (o.line, o.column) <= key);
+        let mapping = function_map.mappings.get(idx.checked_sub(1)?)?;
         function_map
             .names
-            .get(mapping.name_index as usize)
+            .get(usize::try_from(mapping.name_index).ok()?)
             .map(|n| n.as_str())
     }
 
@@ -175,15 +179,15 @@ pub fn decode_hermes(mut rsm: RawSourceMap) -> Result<SourceMapHermes> {
             } = v.as_ref()?.iter().next()?;
 
             let mut mappings = vec![];
-            let mut line = 1;
-            let mut name_index = 0;
+            let mut line: i64 = 1;
+            let mut name_index: i64 = 0;
 
             for line_mapping in raw_mappings.split(';') {
                 if line_mapping.is_empty() {
                     continue;
                 }
 
-                let mut column = 0;
+                let mut column: i64 = 0;
 
                 for mapping in line_mapping.split(',') {
                     if mapping.is_empty() {
@@ -194,9 +198,11 @@ pub fn decode_hermes(mut rsm: RawSourceMap) -> Result<SourceMapHermes> {
                     parse_vlq_segment_into(mapping, &mut nums).ok()?;
                     let mut nums = nums.iter().copied();
 
-                    column = (i64::from(column) + nums.next()?) as u32;
-                    name_index = (i64::from(name_index) + nums.next().unwrap_or(0)) as u32;
-                    line = (i64::from(line) + nums.next().unwrap_or(0)) as u32;
+                    // running values are kept untruncated: an index or position beyond 32 bits
+                    // must not wrap onto a valid one
+                    column = column.checked_add(nums.next()?)?;
+                    name_index = name_index.checked_add(nums.next().unwrap_or(0))?;
+                    line = line.checked_add(nums.next().unwrap_or(0))?;
                     mappings.push(HermesScopeOffset {
                         column,
                         line,
